@@ -153,8 +153,54 @@ def audit(x):
     return errs
 
 
+def introspection(x):
+    """the library's own descriptive accessors must agree with the audited
+    raw state (they are how users read a result's structure)"""
+    import math
+
+    import symmray as sr
+
+    errs = []
+    if isinstance(x, sr.BlockVector):
+        return errs
+
+    def bad(name, got, want):
+        errs.append((f"accessor-{name}", f"{name} = {got!r}, raw state says "
+                                         f"{want!r}"))
+
+    cms = [dict(ix.chargemap) for ix in x.indices]
+    shape = tuple(sum(cm.values()) for cm in cms)
+    if tuple(x.shape) != shape:
+        bad("shape", x.shape, shape)
+    if x.ndim != len(cms):
+        bad("ndim", x.ndim, len(cms))
+    if x.size != math.prod(shape):
+        bad("size", x.size, math.prod(shape))
+    if x.num_blocks != len(x.blocks):
+        bad("num_blocks", x.num_blocks, len(x.blocks))
+    if tuple(x.duals) != tuple(ix.dual for ix in x.indices):
+        bad("duals", x.duals, tuple(ix.dual for ix in x.indices))
+    if tuple(x.sectors) != tuple(x.blocks):
+        bad("sectors", x.sectors, tuple(x.blocks))
+    for k, (ix, cm) in enumerate(zip(x.indices, cms)):
+        if ix.size_total != sum(cm.values()):
+            bad(f"axis{k}.size_total", ix.size_total, sum(cm.values()))
+        if ix.num_charges != len(cm):
+            bad(f"axis{k}.num_charges", ix.num_charges, len(cm))
+        for c, d in cm.items():
+            if ix.size_of(c) != d:
+                bad(f"axis{k}.size_of", ix.size_of(c), d)
+    for sec, blk in x.blocks.items():
+        gs = tuple(x.get_block_shape(sec))
+        if gs != tuple(np.shape(blk)):
+            bad("get_block_shape", gs, tuple(np.shape(blk)))
+    return errs
+
+
 def require_valid(x, sig_prefix="invalid", what=""):
     errs = audit(x)
+    if not errs:
+        errs = introspection(x)
     if errs:
         s, m = errs[0]
         raise Discrepancy(f"{sig_prefix}:{s}", f"{what}: {m}")
